@@ -9,6 +9,7 @@ rk4
 implicit or backwardeuler
 trapezoidal or cranknicolson
 """
+import copy
 import math
 import sys
 import time
@@ -291,8 +292,8 @@ class timemodel(_coreiterative):
             # specific steps, each from a copy of Qn, to save all the requested states reached by this step
             while (isave < nsave) and (self.Qn.time+mindtloc >= tsave[isave]):
                 Qnn = self.Qn.copy()
-                # compute smaller step with same integrator
-                self.step(Qnn, tsave[isave]-self.Qn.time)
+                # compute smaller step with a (shallow) copy of the integrator: its internal state (e.g. history) is kept
+                copy.copy(self).step(Qnn, tsave[isave]-self.Qn.time)
                 Qnn.it = self._itstart + self._nit
                 results.append(Qnn)
                 if verbose:
